@@ -69,19 +69,62 @@ def decode_message(wire: bytes):
     return {"start": start, "hdrs": hdrs, "body": body, "rest": rest, "chunked": bool(tes)}, None
 
 
+OWS = b" \t"
+
+
+def ref_headers(ops):
+    """list-based reference evaluation of the header operations (what the collection must contain afterwards): returns
+    (field lines in order, declared content length or None).  Content-Length is a number, never a stored line."""
+    fields, cl = [], None
+
+    def rm(nm):
+        nonlocal fields, cl
+        fields = [(k, v) for k, v in fields if k.lower() != nm.lower()]
+        if nm.lower() == b"content-length":
+            cl = None
+
+    def add(nm, v):
+        nonlocal cl
+        if nm.lower() == b"content-length":
+            d = v.strip(b" \t\r\n\x0c")
+            cl = int(d) if d.isdigit() and d.isascii() and int(d) < 2 ** 64 else None
+        else:
+            fields.append((nm, v))
+
+    for o_ in ops:
+        p = o_.split(":")
+        if p[0] == "add":
+            add(unhex(p[1]), unhex(p[2]))
+        elif p[0] == "rep":
+            rm(unhex(p[1])); add(unhex(p[1]), unhex(p[2]))
+        elif p[0] == "rm":
+            rm(unhex(p[1]))
+        elif p[0] == "scl":
+            cl = int(p[1])
+        elif p[0] == "ste":
+            fields.append((b"transfer-encoding", b"chunked"))
+        elif p[0] == "scc":
+            fields.append((b"connection", b"close"))
+    return fields, cl
+
+
+def has_token(v, tok):
+    return any(t.strip(OWS).lower() == tok for t in v.split(b","))
+
+
 def oracle(line, impl):
     f = fields_of(line)
     body = G.body_of(line)
-    ops = [] if f.get("hdr", "-") == "-" else f["hdr"].split(";")
-    user = [(unhex(o_.split(":")[1]), unhex(o_.split(":")[2])) for o_ in ops if o_.startswith("add:")]
-    cl = next((int(o_[4:]) for o_ in ops if o_.startswith("scl:")), None)
-    te_user = [v for k, v in user if k.lower() == b"transfer-encoding"]
-    chunked_decl = "ste" in ops or any(b"chunked" in v.lower() for v in te_user)
-    if any(b"chunked" not in v.lower() for v in te_user):
-        return "KNOWN"  # class user_transfer_encoding_without_chunked: some user-supplied TE field has no chunked token
+    ops = [] if f.get("hdr", "-") == "-" else [o_ for o_ in f["hdr"].split(";") if o_ != "nodate"]
+    fields, cl = ref_headers(ops)
+    te_fields = [v for k, v in fields if k.lower() == b"transfer-encoding"]
+    chunked_decl = any(has_token(v, b"chunked") for v in te_fields)
+    if any(not has_token(v, b"chunked") for v in te_fields):
+        return "KNOWN"  # class user_transfer_encoding_without_chunked: some stored TE field has no chunked token
     entry = f["entry"]
     if impl.startswith("PANIC") or impl.startswith("CRASH") or impl.startswith("BAD"):
         return "printer failed: " + impl[:40]
+    # a declared length governs only the reader entry points; for a byte-slice body the length of the slice is the length
     declared = cl if (entry in ("reader", "request") and not chunked_decl) else None
     if impl.startswith("ERR"):
         if declared is not None and declared > len(body):
@@ -107,17 +150,16 @@ def oracle(line, impl):
         want_start = b"HTTP/1.1 " + f.get("code", "200").encode() + b" " + reason
     if m["start"] != want_start:
         return "start line %r differs from %r" % (m["start"][:60], want_start[:60])
-    got_user = [(k, v) for k, v in m["hdrs"] if k.lower() not in (b"content-length", b"date") and not (k.lower() == b"transfer-encoding" and not te_user and "ste" not in ops)]
-    want_user = [(k, v.strip(b" \t")) for k, v in user]
-    if "ste" in ops:
-        idx = sum(1 for o_ in ops[:ops.index("ste")] if o_.startswith("add:"))
-        want_user.insert(idx, (b"transfer-encoding", b"chunked"))
-    if "scc" in ops:
-        want_user.append((b"connection", b"close"))
+    # every stored field line is reproduced in order; the printer adds only date, content-length or (when it chooses chunked
+    # itself) one transfer-encoding: chunked line
+    got_user = [(k, v) for k, v in m["hdrs"] if k.lower() not in (b"content-length", b"date") and not (k.lower() == b"transfer-encoding" and not te_fields)]
+    want_user = [(k, v.strip(OWS)) for k, v in fields]
     if got_user != want_user:
         return "user header fields are not reproduced in order"
-    if m["chunked"] != (chunked_decl or (declared is None and entry in ("reader", "request") and len(body) >= 8192)):
-        return "framing choice (chunked=%s) is not the one the declaration / body length calls for" % m["chunked"]
+    # which framing the printer picks when nothing is declared (content-length after a bounded probe, else chunked) is its own
+    # business: the property asks for exactly one framing header that delimits the body (checked by the decoder above)
+    if chunked_decl and not m["chunked"]:
+        return "transfer-encoding: chunked was declared but the body is not chunk-encoded"
     return None
 
 
